@@ -11,37 +11,37 @@ _T = "property-based testing (Hypothesis, generated specs vs. independent oracle
 CLAIMED = {
     "C01": {
         "technique": _T + "; constructive preconditions, covered-cell-set oracle under an independent minimal-image metric",
-        "level": "Generated grids of all four families (Cartesian 1-3D x all periodicity masks x anisotropy 0.4-2.5 x 3.5 decades of spacing) and 0-4 rendered droplets satisfying the stated separation/resolution preconditions by construction; count, volume, half-cell centre bound and in-box position checked against an independent covered-cell oracle; centres up to several periods outside the box; exhaustive corner sweep (7 sub-cell offsets per axis x up to 8 radii around the corner of periodic boxes with unequal cell counts); sibling-grid warm-up calls. Bounded search (<=24 cells per axis quick, <=48 thorough). Fixed sweep of emulsions of 36-1089 droplets (thorough 2116) on a jittered lattice displaced across the periodic boundaries.",
+        "level": "Generated grids of all four families (Cartesian 1-3D x all periodicity masks x anisotropy 0.4-2.5 x 3.5 decades of spacing) and 0-4 rendered droplets satisfying the stated separation/resolution preconditions by construction; count, volume, half-cell centre bound and in-box position checked against an independent covered-cell oracle; centres up to several periods outside the box; exhaustive corner sweep (7 sub-cell offsets per axis x up to 8 radii around the corner of periodic boxes with unequal cell counts); sibling-grid warm-up calls. Bounded search (<=24 cells per axis quick, <=48 thorough). Fixed sweep of emulsions of 36-1089 droplets (thorough 2116) on a jittered lattice displaced across the periodic boundaries. One box in eight lies 1e6-1e8 box lengths away from the origin; on cylindrical grids the judged analysis is the second one on the same grid object.",
         "note": "Droplet parameters are handed over in equivalent representations (float / integer arrays, lists, tuples, numpy scalars), unit grids as pde.UnitGrid; knife-edge cells (within 1e-9 R of the surface) skipped and counted; cylindrical droplets kept inside the z-range (py-pde does not wrap z when rendering).",
     },
     "C02": {
         "technique": "exhaustive enumeration of all binary images on small grids (itertools) + Hypothesis-generated structured masks, against an independent BFS connected-component oracle with periodic unwrapping and bipartite matching",
-        "level": "Every binary image on Cartesian grids of 6, 10, 3x3, 3x4, 2x2x3 cells (thorough: up to 14, 4x4, 2x3x3) for every periodicity mask and on cylindrical grids up to 2x5 (thorough 4x4) for both periodic_z, plus generated masks (noise, wrapped boxes, persistent walks) on grids up to 40/16^2/8^3, handed over as masks or as float64 / float32 / boolean / int8 / integer images with numeric or automatic thresholds; volume, unwrapped centre of mass, sphere non-overlap and justification of omissions. Fixed sweep of images with 33-530 components (thorough 2060) incl. ring / bar / U motifs whose equal-volume spheres overlap.",
+        "level": "Every binary image on Cartesian grids of 6, 10, 3x3, 3x4, 2x2x3 cells (thorough: up to 14, 4x4, 2x3x3) for every periodicity mask and on cylindrical grids up to 2x5 (thorough 4x4) for both periodic_z, plus generated masks (noise, wrapped boxes, persistent walks) on grids up to 40/16^2/8^3, handed over as masks or as float64 / float32 / boolean / int8 / integer images with numeric or automatic thresholds; volume, unwrapped centre of mass, sphere non-overlap and justification of omissions. Fixed sweep of images with 33-530 components (thorough 2060) incl. ring / bar / U motifs whose equal-volume spheres overlap. Far boxes (1e6-1e8 box lengths from the origin); on cylindrical grids (and one Cartesian case in eight) another image and then the same image again are analysed on the same grid object and the repeated result is judged.",
         "note": "Positions of winding components are not judged; lopsided on-axis objects and winding objects accompanied by on-axis blobs are swept over every z-position of periodic cylinders; no known finding is open, nothing is excluded.",
     },
     "C03": {
         "technique": _T + "; independent minimal-image geometry oracle, inside/outside equivalence, metamorphic roll equivariance, emulsion = clipped sum under permutation",
-        "level": "Generated droplets of all five classes on every compatible grid family (generic and dyadic Cartesian 1-3 D with all periodicity masks, polar, spherical, cylindrical), widths None/0/positive, arbitrary level pairs, centres on cell centres/faces/outside the box; finiteness, range, midpoint equivalence, exact indicator, monotonic decay, roll equivariance, emulsion clause. Interfaces up to 2500 times thinner than the radius.",
+        "level": "Generated droplets of all five classes on every compatible grid family (generic and dyadic Cartesian 1-3 D with all periodicity masks, polar, spherical, cylindrical), widths None/0/positive, arbitrary level pairs, centres on cell centres/faces/outside the box; finiteness, range, midpoint equivalence, exact indicator, monotonic decay, roll equivariance, emulsion clause. Interfaces up to 2500 times thinner than the radius. In half of the roll cases the translated twin is a moved copy of the droplet, and the original is rendered again afterwards.",
         "note": "The droplet's own interface_distance defines the shape (for all three perturbed classes it is cross-checked against the documented series, 3-D via an independent real-spherical-harmonics oracle); each render is preceded by an unjudged render on a sibling grid (other periodicity / spacing / origin); knife-edge and ambiguous-image cells excluded and counted; exact 1-D dyadic cases judged without tolerance.",
     },
     "C04": {
         "technique": _T + "; harness-side recording proxy for scipy.optimize (initial/final cost, bounds), independent recomputation of the deviation over the fit region, post-condition oracle",
-        "level": "Generated images (clean, noisy, rescaled, pure noise, smooth, self-render) x candidates of every class and mode count x all grid families and periodicities x four intensity options x optional tolerance / evaluation budget (non-converged fits); sharp candidates (width 0), perturbed candidates without modes, images as float64 / float32 / integer grey levels / boolean; cost non-increase, bounds, class, symmetry-fixed coordinates, periodic wrap, image immutability, fixed point. Candidates that cover no support point (sub-cell on a cell corner, beyond a wall), also periods away from the box.",
+        "level": "Generated images (clean, noisy, rescaled, pure noise, smooth, self-render) x candidates of every class and mode count x all grid families and periodicities x four intensity options x optional tolerance / evaluation budget (non-converged fits); sharp candidates (width 0), perturbed candidates without modes, images as float64 / float32 / integer grey levels / boolean; cost non-increase, bounds, class, symmetry-fixed coordinates, periodic wrap, image immutability, fixed point. Candidates that cover no support point (sub-cell on a cell corner, beyond a wall), also periods away from the box. Constant images (dyadic and ordinary decimal values) and images with a nan / +-inf pixel outside the fitted region.",
         "note": "scipy least_squares trusted; fixed-point clause for candidates with an explicit width (incl. 0); sharp candidates with a cell centre within 1e-6 R of the interface are knife-edge cases (counted, not judged); independent deviation skipped on periodic cylindrical grids (py-pde rendering does not wrap z).",
     },
     "C05": {
         "technique": _T + "; render/locate+refine round trip with a recovery oracle (position, radius, width to 1e-4)",
-        "level": "Generated resolvable diffuse droplets and well-separated emulsions on all grid families (Cartesian dims 1-3 with every periodicity mask, mild anisotropy, 3.5 decades of spacing; polar; spherical; cylindrical), five threshold rules, four intensity options; centres also within a fraction of a cell of a periodic boundary; single-precision images; in four cases of seven an unjudged analysis with other options precedes the judged one in the same process; one-to-one matching under the minimal-image metric. One case in ten is a finely resolved droplet (interface 3-12 cells wide).",
+        "level": "Generated resolvable diffuse droplets and well-separated emulsions on all grid families (Cartesian dims 1-3 with every periodicity mask, mild anisotropy, 3.5 decades of spacing; polar; spherical; cylindrical), five threshold rules, four intensity options; centres also within a fraction of a cell of a periodic boundary; single-precision images; in four cases of seven an unjudged analysis with other options precedes the judged one in the same process; one-to-one matching under the minimal-image metric. One case in ten is a finely resolved droplet (interface 3-12 cells wide). One options dict may serve a first (mirrored image) and then the judged analysis.",
         "note": "Bounded to radius 3-8 cells / width 1-2 cells as stated; gap >= 10 widths for emulsions; 3-D cases single droplet.",
     },
     "C06": {
         "technique": "exhaustive enumeration of lattice histories + Hypothesis-generated time courses; invariant over the history (multiset partition, input snapshot)",
-        "level": "All 3-frame histories over every subset of a 4-site (thorough 5-site) 1-D lattice x methods x cut-offs x {no grid, periodic}; generated time courses of 0-6 (10) frames, any droplet class, dims 1-3, three placement modes, exact duplicates within a frame, all cut-offs (also relative to actual pair distances), time axes far from zero / tiny / through zero / integer nanosecond stamps beyond 2^53 (compared exactly); time stamps and frames in equivalent containers; partition invariant, gap-free/at-most-once under the stated premise, input unmodified. Crowd histories of 33-1300 droplets per frame (thorough 4400), random and as a fixed sweep over method x grid.",
+        "level": "All 3-frame histories over every subset of a 4-site (thorough 5-site) 1-D lattice x methods x cut-offs x {no grid, periodic}; generated time courses of 0-6 (10) frames, any droplet class, dims 1-3, three placement modes, exact duplicates within a frame, all cut-offs (also relative to actual pair distances), time axes far from zero / tiny / through zero / integer nanosecond stamps beyond 2^53 (compared exactly); time stamps and frames in equivalent containers; partition invariant, gap-free/at-most-once under the stated premise, input unmodified. Crowd histories of 33-1300 droplets per frame (thorough 4400), random and as a fixed sweep over method x grid. One history in five without a grid lies 1e6-1e8 box sizes away from the origin.",
         "note": "Premise (no within-frame overlap) evaluated with an independent minimal-image metric and a 1e-9 margin.",
     },
     "C07": {
         "technique": "exhaustive lattice histories + Hypothesis-generated identity-preserving motion histories; differential against a re-implemented overlap relation and greedy closest-pair matching",
-        "level": "Links extracted from returned tracks compared with the oracle relation (overlap: link implies overlap, no-overlap implies new track, one-to-one relation followed exactly; distance: cut-off respected, no end/start pair within the cut-off, greedy matching when distances are distinct; motion histories keep identities across periodic boundaries; one history in eight is tracked backwards in time). Crowd histories (33-1300 droplets per frame) on lattices displaced across the periodic boundaries, with vectorised oracles.",
+        "level": "Links extracted from returned tracks compared with the oracle relation (overlap: link implies overlap, no-overlap implies new track, one-to-one relation followed exactly; distance: cut-off respected, no end/start pair within the cut-off, greedy matching when distances are distinct; motion histories keep identities across periodic boundaries; one history in eight is tracked backwards in time). Crowd histories (33-1300 droplets per frame) on lattices displaced across the periodic boundaries, with vectorised oracles. Far-from-origin histories as in C06.",
         "note": "Cases violating the no-within-frame-overlap premise or with unidentifiable entries are skipped and counted (C06 judges those); the consecutive-overlap clause is judged for every pair of entries of a track; links that skip a frame and the links of histories with untracked droplets are judged too.",
     },
     "C08": {
@@ -71,7 +71,7 @@ CLAIMED = {
     },
     "C13": {
         "technique": _T + "; quadrature of the body bounded by interface_distance, exact differential geometry (planar curvature from r,r',r''; mean curvature from fundamental forms), re-implemented harmonic series, sphere limit",
-        "level": "Generated perturbed droplets of all three classes, R0 over two decades, arbitrary centres, several simultaneously non-zero modes up to degree 4 (dense and sparse patterns that skip whole degrees) in four amplitude regimes; a droplet of the twin 3-D class is queried first; angles as scalars, 1-d arrays, 2-d tables (C / Fortran order, transposed views), azimuth omitted; shape functions against the documented series (2-D, axisymmetric, 3-D via independent real spherical harmonics); exact claims to 1e-6..1e-12, first-order claims as |error| R0 <= C s^2 over s = 1e-5..1e-2. Long amplitude vectors (2-D up to 400, 3-D up to 624, axisymmetric up to 60 entries) with sizeable high modes, random and as a fixed sweep.",
+        "level": "Generated perturbed droplets of all three classes, R0 over two decades, arbitrary centres, several simultaneously non-zero modes up to degree 4 (dense and sparse patterns that skip whole degrees) in four amplitude regimes; a droplet of the twin 3-D class is queried first; angles as scalars, 1-d arrays, 2-d tables (C / Fortran order, transposed views), azimuth omitted; shape functions against the documented series (2-D, axisymmetric, 3-D via independent real spherical harmonics); exact claims to 1e-6..1e-12, first-order claims as |error| R0 <= C s^2 over s = 1e-5..1e-2. Long amplitude vectors (2-D up to 400, 3-D up to 624, axisymmetric up to 60 entries) with sizeable high modes, random and as a fixed sweep. One case in five uses a length unit between 1e-7 and 1e7.",
         "note": "numpy/scipy quadrature primitives trusted; 2-D perimeter tolerance max(1e-6, twice the discretisation error of a 256-node rule); directions kept 0.2 rad off the poles; 3-D volume only for <= 8 non-zero modes; amplitudes of long vectors are scaled with the sup norm of the harmonics so that the radius function stays positive.",
     },
     "C14": {
@@ -81,32 +81,32 @@ CLAIMED = {
     },
     "C15": {
         "technique": "schedule exploration by harness-controlled delay injection (Hypothesis-drawn completion orders, exhaustive over 4 tasks in the thorough tier), differential against the serial run",
-        "level": "Generated fields / storages x process counts {2,3,5,auto} x forced worker completion orders; locate_droplets(refine=True), refine_droplets (incl. user-supplied solver parameters, fresh copy per call; candidates as list / tuple / Emulsion / generator / iterator; storages with repeated or non-monotonic time stamps), EmulsionTimeCourse.from_storage and DropletTrackList.from_storage must return (or, for a candidate that cannot be fitted, fail in) the byte-identical, identically ordered result of the serial run; serial runs must be repeatable. Robust-loss solver options (soft_l1, huber, cauchy) among the user-supplied parameters.",
+        "level": "Generated fields / storages x process counts {2,3,5,auto} x forced worker completion orders; locate_droplets(refine=True), refine_droplets (incl. user-supplied solver parameters, fresh copy per call; candidates as list / tuple / Emulsion / generator / iterator; storages with repeated or non-monotonic time stamps), EmulsionTimeCourse.from_storage and DropletTrackList.from_storage must return (or, for a candidate that cannot be fitted, fail in) the byte-identical, identically ordered result of the serial run; serial runs must be repeatable. Robust-loss solver options (soft_l1, huber, cauchy) among the user-supplied parameters. One box in four lies 1e4-1e7 box lengths away from the origin; after from_storage one result is continued by the caller and the storage analysed again.",
         "note": "Explores completion orders of whole tasks on forked process pools, not pre-emption inside a task; delays are never used as a verdict.",
     },
     "C16": {
         "technique": _T + "; Parseval identity, wave-number oracle, metamorphic relations (scale, roll, flip, transpose, stretch)",
-        "level": "Generated fully periodic grids (dims 1-3, even/odd shapes, anisotropic spacings over 4 decades) x field kinds x transformation bundles; unsmoothed and smoothed variants with requested wave numbers and add_zero; results are overwritten by the caller and the call repeated; a sibling grid of the same shape is analysed first; the same values as an integer / boolean field. Fixed sweep of large grids (4290-70001 cells incl. 300x221 and 41^3; thorough 135200) for every clause.",
+        "level": "Generated fully periodic grids (dims 1-3, even/odd shapes, anisotropic spacings over 4 decades) x field kinds x transformation bundles; unsmoothed and smoothed variants with requested wave numbers and add_zero; results are overwritten by the caller and the call repeated; a sibling grid of the same shape is analysed first; the same values as an integer / boolean field. Fixed sweep of large grids (4290-70001 cells incl. 300x221 and 41^3; thorough 135200) for every clause. Near-constant fields (fluctuations 1e-4 ... 1e-8 of the mean) judged relative to their own largest value.",
         "note": "numpy.fft trusted; tolerances rtol 1e-9/atol 1e-13 (smoothed 1e-7/1e-12).",
     },
     "C17": {
         "technique": _T + "; metamorphic covariance relations per method, plane-wave oracle for the peak method, definition check for droplet counting",
-        "level": "Generated periodic grids with spacings over 5 decades (and exactly 1), three methods; stretch/scale/shift relations (exact for moment and counting methods, within a Fourier bin for the peak method with an explicit covariant width); plane waves with integer wave vectors under the default smoothing; droplet counting also on binary images of elongated bars (judged through the locator's overlap filter); sibling-grid warm-up. Boxes with lower corner != 0, mixed periodicity for droplet counting, the documented method aliases and full_output, images of one connected winding band.",
+        "level": "Generated periodic grids with spacings over 5 decades (and exactly 1), three methods; stretch/scale/shift relations (exact for moment and counting methods, within a Fourier bin for the peak method with an explicit covariant width); plane waves with integer wave vectors under the default smoothing; droplet counting also on binary images of elongated bars (judged through the locator's overlap filter); sibling-grid warm-up. Boxes with lower corner != 0, mixed periodicity for droplet counting, the documented method aliases and full_output, images of one connected winding band. Length units from 1e-6 to 1e8.",
         "note": "F10 (default smoothing width not covariant) is repaired; its signature is still discriminated so that a regression is reported; ambiguous peaks and NaN results on general fields are skipped and counted.",
     },
     "C18": {
         "technique": _T + "; differential against the documented binary image, Otsu by definition, exact affine metamorphic relation",
-        "level": "Generated fields with exactly representable values on all grid families x five threshold rules x exact affine maps x minimal radii incl. exactly a found radius; byte-for-byte comparison with locate_droplets_in_mask(data > t_oracle), affine invariance, exact radius-filter sub-list, also with refinement; 1-D images of 4095...200003 cells next to powers of two; the same integer-valued image as an int64 field (bound between a fitted and a cluster radius); Otsu additionally on dense bimodal samples. Long 1-D images of any length up to 600000 cells (thorough 1.4 M) and dense Otsu samples of the same length.",
+        "level": "Generated fields with exactly representable values on all grid families x five threshold rules x exact affine maps x minimal radii incl. exactly a found radius; byte-for-byte comparison with locate_droplets_in_mask(data > t_oracle), affine invariance, exact radius-filter sub-list, also with refinement; 1-D images of 4095...200003 cells next to powers of two; the same integer-valued image as an int64 field (bound between a fitted and a cluster radius); Otsu additionally on dense bimodal samples. Long 1-D images of any length up to 600000 cells (thorough 1.4 M) and dense Otsu samples of the same length. Affine maps with a background of 2^20 ... 2^24.",
         "note": "numpy.histogram trusted for binning; Otsu near-ties between different masks and mean-rule knife edges skipped and counted.",
     },
     "C19": {
         "technique": "exhaustive enumeration of the finite configuration cube (itertools) with a class/shape/layout oracle",
-        "level": "All 10752 combinations (10912 with the parallel-refinement configurations) of grid family/periodicity (plus two grids with strongly anisotropic cells) x modes x width x refine x threshold rule x image (one / two / three droplets, empty, speck, droplet + speck), a third of them with numpy-scalar request arguments, are executed in both tiers (exhaustive: true); exact class, amplitude count, dimension, carried width, single dtype and formable tabular data. Plus 160 configurations with refinement spread over 2 / 3 worker processes and 9-26 droplets.",
+        "level": "All 10752 combinations (10912 with the parallel-refinement configurations) of grid family/periodicity (plus two grids with strongly anisotropic cells) x modes x width x refine x threshold rule x image (one / two / three droplets, empty, speck, droplet + speck), a third of them with numpy-scalar request arguments, are executed in both tiers (exhaustive: true); exact class, amplitude count, dimension, carried width, single dtype and formable tabular data. Plus 160 configurations with refinement spread over 2 / 3 worker processes and 9-26 droplets. And 72 configurations with a minimal radius between the two smallest cluster radii.",
         "note": "One fixed geometry per grid family; refinement quality is not judged here.",
     },
     "C20": {
         "technique": "model-based testing: Hypothesis-generated operation sequences (as data) interpreted against a list model, plus exhaustive sequences over a 7-operation alphabet",
-        "level": "Three machines (Emulsion, EmulsionTimeCourse, DropletTrack/List), 1-50 (thorough 200) operations per sequence incl. ownership probes; model equality and independence of copies/slices after every step; arrays returned by queries are overwritten by the caller; nearly monodisperse histories; rejected batches (list / Emulsion / generator with a wrong droplet in the middle); in-place reorder operations; frames appended as Emulsion / list / tuple / generator; a linked data array must mirror its droplets after every later step; summary queries vs definitions and under member reversal; all sequences of length <= 4 (5) over a small alphabet.",
+        "level": "Three machines (Emulsion, EmulsionTimeCourse, DropletTrack/List), 1-50 (thorough 200) operations per sequence incl. ownership probes; model equality and independence of copies/slices after every step; arrays returned by queries are overwritten by the caller; nearly monodisperse histories; rejected batches (list / Emulsion / generator with a wrong droplet in the middle); in-place reorder operations; frames appended as Emulsion / list / tuple / generator; a linked data array must mirror its droplets after every later step; summary queries vs definitions and under member reversal; all sequences of length <= 4 (5) over a small alphabet. Emulsion histories 1e6-1e8 away from the origin; smoothed trajectories / radii against the Gaussian-average definition; first / last / items.",
         "note": "append(copy=False) aliasing unspecified and not judged; remove_overlapping inside a history is specified by the post-conditions that C10 states (separated survivors, original objects in order, every removal justified by an at-least-as-large droplet of the original emulsion), not by one particular survivor set.",
     },
 }
